@@ -47,6 +47,13 @@ EXPLANATION = (
     "produced by third-party libraries and the correctness of is_exposed "
     "are not decided.")
 
+EXPLANATION += (
+    ' Added after the seeded rounds: inside sanitize_paths the replaced '
+    'text is the word as it occurs and the replacement a bare or '
+    'package-relative name; is_exposed tests every ancestor and both '
+    'kinds of entry.'
+)
+
 RULE_TEXT = (
     "one obligation per emitted value (config, log, log file, module), "
     "per removed key, per path interpolation site")
